@@ -695,6 +695,63 @@ static std::string run_box(const std::string &script)
     return o.str();
 }
 
+// one case, isolated: used after the batch child died on it
+static std::string run_isolated(const std::string &line)
+{
+    bool is_box = line.compare(0, 4, "BOX ") == 0;
+    if (!is_box and !verif::survives([&]() { (void)eval44(verif::parse_sexp(line)); }, 60))
+        return "SKIP construction crashed";
+    std::string r = verif::run_forked(
+        [&]() {
+            if (is_box)
+                return run_box(line.substr(4));
+            return run_expr(line, "MLUJS");
+        },
+        120);
+    if (!is_box and (r.empty() or r[0] != '@') and r.compare(0, 4, "SKIP") != 0) {
+        // a printer (or parse_sbml) died: run them one by one to keep the others' results
+        std::string head = verif::run_forked([&]() { return run_expr(line, ""); }, 120);
+        if (!head.empty() and head[0] == '@') {
+            std::string all = head, orc;
+            const char *names[] = {"M", "L", "U", "J", "S"};
+            for (const char *nm : names) {
+                std::string part = verif::run_forked([&]() { return run_expr(line, nm); }, 120);
+                size_t arrow = part.find("\t=>\t");
+                if (!part.empty() and part[0] == '@' and arrow != std::string::npos) {
+                    std::string body = part.substr(arrow + 4);
+                    size_t op = body.find("\t#ORACLE:");
+                    if (op != std::string::npos) {
+                        orc += body.substr(op);
+                        body = body.substr(0, op);
+                    }
+                    if (!body.empty() and body[0] == '\t')
+                        body = body.substr(1);
+                    all += (std::string(nm) == "M" ? "" : "\t") + body;
+                } else {
+                    std::string how = part.size() > 40 ? part.substr(part.size() - 40) : part;
+                    size_t c = how.find("CRASH:");
+                    if (c == std::string::npos)
+                        c = how.find("HANG");
+                    how = c == std::string::npos ? "DIED" : how.substr(c);
+                    all += (std::string(nm) == "M" ? "" : "\t") + std::string(nm) + "=" + how;
+                    if (std::string(nm) == "S")
+                        all += "\tR=-";
+                    orc += "\t#ORACLE:crash-" + std::string(nm) + ":the printer ends with " + how;
+                }
+            }
+            r = all + orc;
+        }
+    }
+    for (auto &c : r)
+        if (c == '\n')
+            c = ' ';
+    if (!r.empty() and r[0] == '@')
+        r = r.substr(1);
+    else if (r.compare(0, 4, "SKIP") != 0)
+        r = "DIED " + r; // CRASH:<sig> / HANG
+    return r;
+}
+
 int main()
 {
     // warm the function-local statics before forking
@@ -707,63 +764,80 @@ int main()
         (void)julia_str(*w);
     } catch (...) {
     }
+    std::vector<std::string> lines;
     std::string line;
-    while (std::getline(std::cin, line)) {
-        bool is_box = line.compare(0, 4, "BOX ") == 0;
-        // a crash while the recipe is evaluated belongs to the property of that operation
-        if (!is_box and !verif::survives([&]() { (void)eval44(verif::parse_sexp(line)); }, 60)) {
-            std::cout << "SKIP construction crashed\n";
-            continue;
-        }
-        std::string r = verif::run_forked(
-            [&]() {
-                if (is_box)
-                    return run_box(line.substr(4));
-                return run_expr(line, "MLUJS");
-            },
-            120);
-        if (!is_box and (r.empty() or r[0] != '@') and r.compare(0, 4, "SKIP") != 0) {
-            // a printer (or parse_sbml) died: run them one by one to keep the others' results
-            std::string head = verif::run_forked([&]() { return run_expr(line, ""); }, 120);
-            if (!head.empty() and head[0] == '@') {
-                std::string all = head, orc;
-                const char *names[] = {"M", "L", "U", "J", "S"};
-                for (const char *nm : names) {
-                    std::string part = verif::run_forked([&]() { return run_expr(line, nm); }, 120);
-                    size_t arrow = part.find("\t=>\t");
-                    if (!part.empty() and part[0] == '@' and arrow != std::string::npos) {
-                        std::string body = part.substr(arrow + 4);
-                        size_t op = body.find("\t#ORACLE:");
-                        if (op != std::string::npos) {
-                            orc += body.substr(op);
-                            body = body.substr(0, op);
-                        }
-                        if (!body.empty() and body[0] == '\t')
-                            body = body.substr(1);
-                        all += (std::string(nm) == "M" ? "" : "\t") + body;
-                    } else {
-                        std::string how = part.size() > 40 ? part.substr(part.size() - 40) : part;
-                        size_t c = how.find("CRASH:");
-                        if (c == std::string::npos)
-                            c = how.find("HANG");
-                        how = c == std::string::npos ? "DIED" : how.substr(c);
-                        all += (std::string(nm) == "M" ? "" : "\t") + std::string(nm) + "=" + how;
-                        if (std::string(nm) == "S")
-                            all += "\tR=-";
-                        orc += "\t#ORACLE:crash-" + std::string(nm) + ":the printer ends with " + how;
-                    }
+    while (std::getline(std::cin, line))
+        lines.push_back(line);
+    size_t n = lines.size(), start = 0;
+    std::vector<std::string> out(n);
+    // batches: one child runs the cases in order and reports each result; when it dies, the case it
+    // was working on is re-run in isolation and a new child continues behind it
+    while (start < n) {
+        int fd[2];
+        if (pipe(fd) != 0)
+            return 3;
+        fflush(stdout);
+        pid_t pid = fork();
+        if (pid == 0) {
+            close(fd[0]);
+            struct rlimit rl;
+            rl.rlim_cur = rl.rlim_max = 0;
+            setrlimit(RLIMIT_CORE, &rl);
+            for (size_t i = start; i < n; i++) {
+                alarm(120);
+                std::string r;
+                try {
+                    if (lines[i].compare(0, 4, "BOX ") == 0)
+                        r = run_box(lines[i].substr(4));
+                    else
+                        r = run_expr(lines[i], "MLUJS");
+                } catch (...) {
+                    r = "UNCAUGHT";
                 }
-                r = all + orc;
+                for (auto &c : r)
+                    if (c == '\n')
+                        c = ' ';
+                r += "\n";
+                size_t off = 0;
+                while (off < r.size()) {
+                    ssize_t w = write(fd[1], r.data() + off, r.size() - off);
+                    if (w <= 0)
+                        _exit(4);
+                    off += (size_t)w;
+                }
             }
+            _exit(0);
         }
-        for (auto &c : r)
-            if (c == '\n')
-                c = ' ';
-        if (!r.empty() and r[0] == '@')
-            r = r.substr(1);
-        else if (r.compare(0, 4, "SKIP") != 0)
-            r = "DIED " + r; // CRASH:<sig> / HANG inside a printer (or parse_sbml)
-        std::cout << r << "\n";
+        close(fd[1]);
+        std::string buf;
+        char tmp[65536];
+        ssize_t r;
+        while ((r = read(fd[0], tmp, sizeof tmp)) > 0)
+            buf.append(tmp, (size_t)r);
+        close(fd[0]);
+        int status = 0;
+        waitpid(pid, &status, 0);
+        size_t i = start, pos = 0;
+        while (pos < buf.size() and i < n) {
+            size_t nl = buf.find('\n', pos);
+            if (nl == std::string::npos)
+                break; // incomplete last line: the child died while writing
+            std::string l = buf.substr(pos, nl - pos);
+            pos = nl + 1;
+            if (!l.empty() and l[0] == '@')
+                l = l.substr(1);
+            else if (l.compare(0, 4, "SKIP") != 0)
+                l = "DIED " + l;
+            out[i++] = l;
+        }
+        if (i < n) {
+            // the child died on case i (or was killed): isolate it
+            out[i] = run_isolated(lines[i]);
+            i++;
+        }
+        start = i;
     }
+    for (size_t i = 0; i < n; i++)
+        std::cout << out[i] << "\n";
     return 0;
 }
